@@ -231,6 +231,11 @@ def run(repo, res):
               sample='%d split/join results over levels 0..4 keep the level and the last component' % nsp)
     res.count('dotted_name_cases', nsp, floor=25)
 
+    # the relative level handed to norm_package by completion on a half-typed `from ...` line (assist model)
+    from .. import api_model
+    api_model.apply(res, [r for r in api_model.assist_model(repo) if r[1].startswith('package whose children')], {'pkg': 'C07-R6'},
+                    'supp/assistant.py', 0)
+
     # ---- R3 sibling agreement ------------------------------------------------------------------------
     tree = repo.tree(PROJECT)
     suf = [n for n in ast.walk(tree) if isinstance(n, ast.Assign) and unparse(n.targets[0]) == 'SUFFIXES']
